@@ -249,6 +249,7 @@ BYTES_FAMILIES = [
     ['89d8', '88d8', '6689d8', '8bc3', '8ac3', '668bc3', '89c3', '88c3', '8ec0', '8cc0', '0f20c0', '0f22c0'],
     ['0f6fc1', '660f6fc1', 'f30f6fc1', '0f7fc1', '660f7fc1', '0f10c1', '660f10c1', 'f30f10c1', 'f20f10c1', '0f28c1', '660f28c1'],
 ]
+BYTES_FAMILIES.append(['648b03', '268a01', '2e8a04', '658b0d00000000', 'a4', 'f3ab', 'a5', '8b03', '36890424', '3e8b4500', '64a100000000'])
 def gen_family_pool(rng, n=4):
     fam = rng.choice(BYTES_FAMILIES)
     return [rng.choice(fam) for _ in range(n)]
